@@ -230,6 +230,23 @@ def _drive(mod, tier, seed, max_examples, t_end, on_case, fail_pred=None, shrink
     return state
 
 
+def corpus_specs(pid):
+    """Regression corpus: shrunk specs of past findings (corpus/<PID>/*.json), replayed on every run."""
+    import glob
+
+    out = []
+    for f in sorted(glob.glob(os.path.join(VERIF_DIR, "corpus", pid, "*.json"))):
+        with open(f) as fh:
+            d = json.load(fh)
+        out.append(d["spec"] if isinstance(d, dict) and "spec" in d and "property_id" in d else d)
+    return out
+
+
+def grid_cases(mod, tier):
+    cases = list(mod.grid(tier)) if hasattr(mod, "grid") else []
+    return cases + corpus_specs(mod.PID)
+
+
 def _quiet_stderr():
     """tqdm progress bars of the code under test go to fd 2; keep the logs readable."""
     if os.environ.get("VT_DEBUG"):
@@ -261,6 +278,13 @@ def _shard(args):
         h = spec_hash(spec)
         if h in seen:
             return records[seen[h]]["_res"]
+        infl = os.environ.get("VT_INFLIGHT_DIR")
+        if infl:
+            try:
+                with open(os.path.join(infl, f"inflight_{seed}.json"), "w") as f:
+                    json.dump(spec, f, default=str)
+            except OSError:
+                pass
         res = evaluate(mod, spec)
         seen[h] = len(records)
         records.append(
@@ -279,7 +303,7 @@ def _shard(args):
         return res
 
     if grid_mode:
-        cases = mod.grid(tier)
+        cases = grid_cases(mod, tier)
         for i, spec in enumerate(cases):
             if i % nshards != shard:
                 continue
@@ -302,18 +326,69 @@ def _shard(args):
     return dict(records=out, skipped=skipped)
 
 
+def _shard_entry(job, outfile):
+    import pickle
+
+    try:
+        out = _shard(job)
+        payload = ("ok", out)
+    except HarnessError as exc:
+        payload = ("harness", str(exc))
+    except BaseException:  # noqa: BLE001
+        payload = ("harness", traceback.format_exc())
+    with open(outfile + ".tmp", "wb") as f:
+        pickle.dump(payload, f)
+    os.replace(outfile + ".tmp", outfile)
+
+
 def _run_shards(pid, tier, seed, workers, max_examples, time_s, grid_mode):
+    """One OS process per shard.  A shard that dies (segfault / abort inside the code under test) is
+    reported with the case it was evaluating; a shard that exceeds its budget by far is killed."""
+    import multiprocessing as mp
+    import pickle
+    import tempfile
+
     jobs = [
         (pid, tier, seed * 1000 + w, w, workers, max_examples, time_s, grid_mode)
         for w in range(workers)
     ]
-    if workers == 1:
-        return [_shard(jobs[0])]
-    import multiprocessing as mp
-
     ctx = mp.get_context("spawn")
-    with ctx.Pool(workers) as pool:
-        return pool.map(_shard, jobs)
+    tmpdir = tempfile.mkdtemp(prefix="vt_shards_")
+    os.environ["VT_INFLIGHT_DIR"] = tmpdir
+    procs = []
+    for w, job in enumerate(jobs):
+        outfile = os.path.join(tmpdir, f"shard{w}.pkl")
+        p = ctx.Process(target=_shard_entry, args=(job, outfile))
+        p.start()
+        procs.append((p, outfile, w))
+    results = []
+    t_kill = time.time() + time_s * 2 + 600
+    for p, outfile, w in procs:
+        p.join(max(1.0, t_kill - time.time()))
+        if p.is_alive():
+            p.kill()
+            p.join()
+            raise HarnessError(f"shard {w} of {pid} did not finish within twice its time budget (killed); inconclusive")
+        if os.path.exists(outfile):
+            with open(outfile, "rb") as f:
+                kind, payload = pickle.load(f)
+            if kind == "harness":
+                raise HarnessError(payload)
+            results.append(payload)
+            continue
+        # the process died without a result: the code under test crashed the interpreter
+        inflight = os.path.join(tmpdir, f"inflight_{jobs[w][2]}.json")
+        spec = None
+        if os.path.exists(inflight):
+            with open(inflight) as f:
+                spec = json.load(f)
+        results.append(dict(records=[dict(
+            h=spec_hash(spec), spec=spec, viol=[(f"{pid}.process_crash", f"worker process died with exit code {p.exitcode} while evaluating this case")],
+            labels=["process crash"], nt=False, stats={}, seed=jobs[w][2], grid=bool(grid_mode))], skipped=0))
+    import shutil
+
+    shutil.rmtree(tmpdir, ignore_errors=True)
+    return results
 
 
 # --------------------------------------------------------------------------- main entry
@@ -332,9 +407,9 @@ def run_property(pid: str, tier: str) -> int:
 
     results = []
     exhaustive = False
-    if hasattr(mod, "grid"):
+    if hasattr(mod, "grid") or corpus_specs(pid):
         results += _run_shards(pid, tier, seed, workers, 0, time_s, True)
-        exhaustive = all(r["skipped"] == 0 for r in results)
+        exhaustive = hasattr(mod, "grid") and all(r["skipped"] == 0 for r in results)
     if hasattr(mod, "strategy") and b.get("max_examples", 100) > 0:
         results += _run_shards(pid, tier, seed, workers, max_examples, time_s, False)
 
@@ -404,6 +479,20 @@ def run_property(pid: str, tier: str) -> int:
         print(f"VIOLATION property={pid} replay={path}")
         exit_code = 1
 
+    # a library that refuses most valid generated inputs does not "hold" the property on them
+    discarded = [r for r in records.values() if any(l.startswith("discarded: ") and "library" in l.lower() or l.startswith("discarded: malformed") or l.startswith("discarded: SuperLU") for l in r["labels"])]
+    if records and len(discarded) > b.get("max_discard_share", 0.6) * len(records):
+        withspec = [r for r in discarded if r["spec"] is not None] or discarded
+        path = os.path.join("replays", f"{pid}_excessive_refusals_{withspec[0]['h'][:8]}.json")
+        with open(os.path.join(OUT_DIR, path), "w") as f:
+            json.dump(dict(property_id=pid, clause=f"{pid}.excessive_refusals", detail=str(withspec[0]["labels"]), spec=withspec[0]["spec"], seed=seed, tier=tier), f, indent=1, default=str)
+        print(f"  clause {pid}.excessive_refusals: the library refused {len(discarded)} of {len(records)} valid generated inputs ({withspec[0]['labels']})")
+        print(f"VIOLATION property={pid} replay={path}")
+        exit_code = 1
+        n_viol += len(discarded)
+    if nontrivial < b.get("min_nontrivial", 2) and exit_code == 0:
+        print(f"HARNESS: only {nontrivial} non-trivial cases (< {b.get('min_nontrivial', 2)}); inconclusive")
+        exit_code = 2
     min_cases = b.get("min_cases", 2)
     if evaluations < min_cases and exit_code == 0:
         print(f"HARNESS: only {evaluations} cases evaluated (< {min_cases}); inconclusive")
